@@ -70,6 +70,8 @@ func (r *Runner) binTest(ctx context.Context, op syntax.BinTestOperator, x, y st
 		}
 		m := re.FindStringSubmatch(x)
 		if m == nil {
+			// Like Bash, a failed match leaves no stale submatches behind.
+			r.setVar("BASH_REMATCH", expand.Variable{Set: true, Kind: expand.Indexed})
 			return false
 		}
 		vr := expand.Variable{
